@@ -18,6 +18,8 @@ source on disk is never touched; node positions are kept, so reports still point
      (``kw_to_pos``, needs the other modules' signatures and is therefore run by the loader after indexing);
   4. local closures used as plain helpers (``def reg(a, b): ...`` at the top of a function body, only ever called,
      after its definition, from the function's own scope) are inlined like private helpers (``Inliner._local_helpers``);
+  6. ``for t in self._gen(a): BODY`` over a private generator that is one loop ending in its only ``yield`` becomes that
+     loop with ``t = <yielded>; BODY`` in place of the yield (``Inliner._expand_for``);
   5. loops over a short literal tuple / list of *variables* (``for src in (self.resources, overrides): d.update(src)``)
      are unrolled (``Unroll``); loops over constants (slot-name tables) keep their shape.
 
@@ -486,6 +488,25 @@ def _eligible_def(fn, any_name=False):
     return kind
 
 
+def _bound_once(tree, name):
+    n = 0
+    for x in ast.walk(tree):
+        if isinstance(x, (ast.FunctionDef, ast.AsyncFunctionDef, ast.ClassDef)) and x.name == name:
+            n += 1
+        elif isinstance(x, ast.Name) and x.id == name and isinstance(x.ctx, (ast.Store, ast.Del)):
+            n += 1
+        elif isinstance(x, ast.arg) and x.arg == name:
+            n += 1
+        elif isinstance(x, ast.alias) and (x.asname or x.name).split('.')[0] == name:
+            n += 1
+    return n == 1
+
+
+def _calls_itself(fn):
+    return any(isinstance(n, ast.Call) and ((isinstance(n.func, ast.Name) and n.func.id == fn.name) or
+                                            (isinstance(n.func, ast.Attribute) and n.func.attr == fn.name)) for n in ast.walk(fn))
+
+
 def collect_helpers(tree, anchors):
     mod_helpers, cls_helpers = {}, {}
     method_names = {}
@@ -503,6 +524,15 @@ def collect_helpers(tree, anchors):
             for m in st.body:
                 if isinstance(m, ast.FunctionDef) and m.name not in anchors:
                     kind = _eligible_def(m)
+                    if kind is None and st.name.startswith('_') and not st.name.startswith('__') and st.name not in anchors and \
+                            not m.name.startswith('_') and not _calls_itself(m) and _bound_once(tree, st.name):
+                        # a static / class method with a public name on a *private* class (``_Options.from_kwargs(kw)``):
+                        # the class is the private helper
+                        fake = copy.copy(m)
+                        fake.name = '_' + m.name
+                        kind = _eligible_def(fake)
+                        if kind not in ('static', 'class'):
+                            kind = None
                     if kind is None or len(method_names.get(m.name, [])) != 1:
                         continue      # overridden / duplicated somewhere in the module: dynamic dispatch
                     cls_helpers[(st.name, m.name)] = Helper(m, 'method' if kind == 'func' else kind, st.name)
@@ -1198,7 +1228,7 @@ class Inliner(object):
         its loop) leave it the same way."""
         call = s.iter
         f = call.func
-        if s.orelse or any(isinstance(a, ast.Starred) for a in call.args) or any(k.arg is None for k in call.keywords):
+        if any(isinstance(a, ast.Starred) for a in call.args) or any(k.arg is None for k in call.keywords):
             return None
         h, recv = None, None
         if isinstance(f, ast.Name) and f.id in self.gen_mod and f.id not in self.shadowed:
@@ -1208,9 +1238,21 @@ class Inliner(object):
             recv = f.value
         if h is None:
             return None
+        # the generator's arguments are evaluated once, when the loop starts, while its body now runs interleaved with
+        # BODY: they must be constants or names the consuming loop does not re-bind
+        # (any other expression is bound to a temporary of its own before the loop, see _bind)
+        rebound = _stored_names([s])
+        for a in list(call.args) + [k.value for k in call.keywords]:
+            if _simple_arg(a) and not (isinstance(a, ast.Constant) or (isinstance(a, ast.Name) and a.id not in rebound)):
+                raise CannotInline('generator argument is not a name the consuming loop leaves alone')
         pre, body = self._bind(h, call, recv, caller_names, None)
         loop = body[-1]
         ph = loop.body[-1]
+        if s.orelse:
+            # the consuming ``else:`` runs when the generator is exhausted = when its loop is, provided that loop cannot ``break``
+            if _contains(loop.body, ast.Break, stop=(ast.FunctionDef, ast.AsyncFunctionDef, ast.ClassDef, ast.Lambda, ast.For, ast.While)):
+                raise CannotInline('consuming loop has an else clause and the generator loop can break')
+            loop.orelse = list(s.orelse)
         if not (isinstance(ph, ast.Expr) and isinstance(ph.value, ast.Tuple) and ph.value.elts and
                 isinstance(ph.value.elts[0], ast.Name) and ph.value.elts[0].id == _YIELD_HERE):
             raise CannotInline('yield position lost')
@@ -1727,6 +1769,8 @@ def normalize_tree(tree, foreign=None):
     n += normalize2.unroll_tables(tree)
     inl = Inliner(tree, anchor_names(), foreign)
     n_inl = inl.run()
+    if normalize2.devirtualize_calls(tree):
+        n_inl += inl.run()      # the calls through a function-valued local now name their helpers
     n += n_inl
     if n_inl:
         n += normalize2.forward_lazy_temps(tree)
